@@ -23,6 +23,9 @@ COQ = os.path.join(VERIF, "coq")
 WORK = os.path.join(VERIF, "work")
 EVID = os.path.join(VERIF, "evidence")
 REPLAYS = os.path.join(EVID, "replays")
+if os.path.realpath(REPO) != "/repo":
+    # a run against a scratch checkout (mutation / seeded-change experiment) must not overwrite the evidence of /repo
+    EVID = os.path.join(WORK, "evidence_other_tree")
 HARNESS = os.path.join(VERIF, "harness")
 KNOWN = os.path.join(VERIF, "KNOWN_FINDINGS.jsonl")
 NCPU = os.cpu_count() or 4
